@@ -52,6 +52,21 @@ fn roles(thorough: bool) -> Vec<RoleDef> {
         if thorough {
             v.push(RoleDef { name: format!("login-caread-{p}-at-other"), perms: ["login", "ca-read", *p].into_iter().collect(), cas: Some(vec!["other"]) });
             v.push(RoleDef { name: format!("all-but-{p}-at-ca"), perms: but, cas: Some(vec!["ca"]) });
+            v.push(RoleDef { name: format!("login-{p}-at-both"), perms: ["login", *p].into_iter().collect(), cas: Some(vec!["ca", "other"]) });
+            v.push(RoleDef { name: format!("login-{p}-at-ca-and-unknown"), perms: ["login", *p].into_iter().collect(), cas: Some(vec!["nobody", "ca"]) });
+        }
+    }
+    if thorough {
+        // every pair of permissions on top of login, blanket and scoped
+        for (i, p) in ALL_PERMISSIONS.iter().enumerate() {
+            for q in &ALL_PERMISSIONS[i + 1..] {
+                if *p == "login" || *q == "login" {
+                    continue;
+                }
+                let perms: BTreeSet<&'static str> = ["login", *p, *q].into_iter().collect();
+                v.push(RoleDef { name: format!("login-{p}-{q}"), perms: perms.clone(), cas: None });
+                v.push(RoleDef { name: format!("login-{p}-{q}-at-other"), perms, cas: Some(vec!["other"]) });
+            }
         }
     }
     v
@@ -153,7 +168,7 @@ fn expected(route: &Route, role: Option<&RoleDef>, target: &str, admin: bool) ->
 pub fn run(tier: &Tier, _args: &[String]) -> i32 {
     let mut out = Outcome::new("C13", tier, "model_checking");
     out.assumptions = vec![
-        "roles are the forms the configuration can express: a permission set, optionally restricted to a list of CAs (then the grant holds for the listed CAs only and for non-CA requests); enumerated: full, none, login, for every permission P: all-but-P, only-P, login+P, login+ca-read+P, login+pub-admin+P, each also scoped to a CA".into(),
+        "roles are the forms the configuration can express: a permission set, optionally restricted to a list of CAs (then the grant holds for the listed CAs only and for non-CA requests); enumerated: full, none, login, for every permission P: all-but-P, only-P, login+P, login+ca-read+P, login+pub-admin+P, each also scoped to a CA; thorough adds scoping to the other CA, to both CAs and to a list with an unknown CA, and every pair of permissions on top of login (blanket and scoped to the other CA)".into(),
         "callers: no credentials, wrong bearer token, the admin token, an unmapped system user, and a system user mapped to each role (the Unix-socket path: the daemon's own provider chain reads the peer user from the request extensions, as the socket listener sets it)".into(),
         "served = any status other than 401/403; the reference for the required permissions is the route table in harness/src/routes.rs, transcribed from src/daemon/http/dispatch".into(),
     ];
